@@ -16,7 +16,7 @@ func init() {
 		Prop:   "C14",
 		Run:    run,
 		Replay: replay,
-		Rule: "E1 over placements x all feature sets, with reference rules and a differential oracle for deviations: (a) config in {absent,true,false} at each of 4 positions of a 3-level skeleton (container, list, choice/case variants): expected verdict (config true under config false is rejected) and expected effective config of every node; (b) status in {absent,current,deprecated,obsolete} at 4 positions: a child may not be more current than its parent, absent inherits; references (typedef, grouping, feature via if-feature, identity base) from a definition of status s1 to one of status s2 in the same module are rejected iff s2 is more obsolete than s1; (c) 3 feature dependency shapes (chain, diamond, independent) x if-feature at up to 3 positions x all 8 enabled-feature sets: the set of present paths must equal the reference (conjunction of transitively enabled features); " +
+		Rule: "E1 over placements x all feature sets, with reference rules and a differential oracle for deviations: (a) config in {absent,true,false} at each of 4 positions of a 3-level skeleton (container, list, choice/case variants): expected verdict (config true under config false is rejected) and expected effective config of every node; (b) status in {absent,current,deprecated,obsolete} at 4 positions: a child may not be more current than its parent, absent inherits; references (typedef, grouping, feature via if-feature, identity base) from a definition of status s1 to one of status s2 in the same module are rejected iff s2 is more obsolete than s1; (c) 3 feature dependency shapes (chain, diamond, independent) x every dependency-closed split of the features over two modules (a imports b) x if-feature at up to 3 positions x all 8 enabled-feature sets: the set of present paths must equal the reference (conjunction of transitively enabled features); " +
 			"(d) deviations: for each target kind and property, deviate add/replace/delete/not-supported from a table; target+deviation module must compile to the dump of the hand-edited target, forbidden combinations must be rejected. Non-trivial = every case except the all-absent placements.",
 		Bound: map[string]string{
 			"quick":    "3 skeletons x 81 config placements; 256 status placements + 4x3x3 reference pairs; 3 shapes x 64 placements x 8 feature sets; 60 deviations",
@@ -320,62 +320,102 @@ func featureCases() []caseRec {
 	}
 	sort.Strings(shapeNames)
 	opts := []string{"", "f1", "f2", "f3"}
+	fs := []string{"f1", "f2", "f3"}
 	for _, sn := range shapeNames {
 		deps := shapes[sn]
-		var fdecl strings.Builder
-		for _, f := range []string{"f1", "f2", "f3"} {
-			fmt.Fprintf(&fdecl, "feature %s {", f)
-			for _, d := range deps[f] {
-				fmt.Fprintf(&fdecl, " if-feature %s;", d)
-			}
-			fdecl.WriteString(" } ")
-		}
-		for i := 0; i < 64; i++ {
-			p := [3]string{opts[i%4], opts[(i/4)%4], opts[(i/16)%4]}
-			text := hdr + fdecl.String() + fmt.Sprintf("container c1 {%s container c2 {%s leaf l {%s type string; } } leaf m { type string; } }", stmt("if-feature", p[0]), stmt("if-feature", p[1]), stmt("if-feature", p[2])) + " }"
-			for mask := 0; mask < 8; mask++ {
-				en := map[string]bool{}
-				var feats []string
-				for b, f := range []string{"f1", "f2", "f3"} {
-					if mask&(1<<b) != 0 {
-						en[f] = true
-						feats = append(feats, "a:"+f)
+		// homes: bit i set = feature f(i+1) is defined in the imported module b.  A feature of b
+		// can only depend on features of b (b does not import a).
+		for homes := 0; homes < 8; homes++ {
+			inB := func(f string) bool { return homes&(1<<(int(f[1]-'1'))) != 0 }
+			closed := true
+			for _, f := range fs {
+				for _, d := range deps[f] {
+					if inB(f) && !inB(d) {
+						closed = false
 					}
 				}
-				var eff func(f string) bool
-				eff = func(f string) bool {
-					if f == "" {
-						return true
-					}
-					if !en[f] {
-						return false
-					}
-					for _, d := range deps[f] {
-						if !eff(d) {
-							return false
+			}
+			if !closed {
+				continue
+			}
+			ref := func(from, f string) string { // how module 'from' spells feature f
+				if f == "" {
+					return ""
+				}
+				if inB(f) && from == "a" {
+					return "b:" + f
+				}
+				return f
+			}
+			var declA, declB strings.Builder
+			for _, f := range fs {
+				home, decl := "a", &declA
+				if inB(f) {
+					home, decl = "b", &declB
+				}
+				fmt.Fprintf(decl, "feature %s {", f)
+				for _, d := range deps[f] {
+					fmt.Fprintf(decl, " if-feature %s;", ref(home, d))
+				}
+				decl.WriteString(" } ")
+			}
+			for i := 0; i < 64; i++ {
+				p := [3]string{opts[i%4], opts[(i/4)%4], opts[(i/16)%4]}
+				mods := map[string]string{}
+				head := hdr
+				if homes != 0 {
+					head = hdr + "import b { prefix b; } "
+					mods["b"] = "module b { namespace \"urn:b\"; prefix b; " + declB.String() + "}"
+				}
+				mods["a"] = head + declA.String() + fmt.Sprintf("container c1 {%s container c2 {%s leaf l {%s type string; } } leaf m { type string; } }", stmt("if-feature", ref("a", p[0])), stmt("if-feature", ref("a", p[1])), stmt("if-feature", ref("a", p[2]))) + " }"
+				for mask := 0; mask < 8; mask++ {
+					en := map[string]bool{}
+					var feats []string
+					for b, f := range fs {
+						if mask&(1<<b) != 0 {
+							en[f] = true
+							if inB(f) {
+								feats = append(feats, "b:"+f)
+							} else {
+								feats = append(feats, "a:"+f)
+							}
 						}
 					}
-					return true
-				}
-				c1 := eff(p[0])
-				c2 := c1 && eff(p[1])
-				l := c2 && eff(p[2])
-				r := caseRec{Kind: "feature", Name: fmt.Sprintf("%s#%v#%v", sn, p, feats), Mods: map[string]string{"a": text}, Feats: append([]string{}, feats...), Expect: "ok"}
-				if r.Feats == nil {
-					r.Feats = []string{}
-				}
-				add := func(path string, present bool) {
-					if present {
-						r.Present = append(r.Present, path)
-					} else {
-						r.Absent = append(r.Absent, path)
+					var eff func(f string) bool
+					eff = func(f string) bool {
+						if f == "" {
+							return true
+						}
+						if !en[f] {
+							return false
+						}
+						for _, d := range deps[f] {
+							if !eff(d) {
+								return false
+							}
+						}
+						return true
 					}
+					c1 := eff(p[0])
+					c2 := c1 && eff(p[1])
+					l := c2 && eff(p[2])
+					r := caseRec{Kind: "feature", Name: fmt.Sprintf("%s#inb%d#%v#%v", sn, homes, p, feats), Mods: mods, Feats: append([]string{}, feats...), Expect: "ok"}
+					if r.Feats == nil {
+						r.Feats = []string{}
+					}
+					add := func(path string, present bool) {
+						if present {
+							r.Present = append(r.Present, path)
+						} else {
+							r.Absent = append(r.Absent, path)
+						}
+					}
+					add("/c1", c1)
+					add("/c1/c2", c2)
+					add("/c1/c2/l", l)
+					add("/c1/m", c1)
+					out = append(out, r)
 				}
-				add("/c1", c1)
-				add("/c1/c2", c2)
-				add("/c1/c2/l", l)
-				add("/c1/m", c1)
-				out = append(out, r)
 			}
 		}
 	}
